@@ -459,10 +459,16 @@ func familyOpaque(depth int) (nsigs int, nvals int64) {
 		t := comp[i]
 		rd := enum.NewFragReader(nil, nil, 0, 0)
 		outcomes := map[string]bool{}
-		for _, d := range enum.Vals(t) {
+		vals, dls := enum.Vals(t), opaqueDeliveries
+		if t.Depth() >= 3 {
+			// depth-3 signatures (thorough tier): the distinguished and the
+			// zero value, two deliveries
+			vals, dls = []*refmodel.Datum{enum.Dist(t), enum.Zero(t)}, opaqueDeliveries[1:]
+		}
+		for _, d := range vals {
 			counts[i]++
 			v := opaqueOf(d)
-			clause, det, enc, dl := firstFailure(g, rd, v, fam, opaqueDeliveries)
+			clause, det, enc, dl := firstFailure(g, rd, v, fam, dls)
 			if clause == "" {
 				outcomes["ok"] = true
 				continue
@@ -566,7 +572,7 @@ func main() {
 	finish := func() int {
 		rule := "families: constructor = 13 constructors x Val(T); list = every value.List nested to depth D with 0..2 elements drawn from 11 base values " +
 			"(scalars, string, raw, void, 4 opaque composites) and the lists of the previous depth (at most one nested list per list); " +
-			"opaque = every composite signature of Sig(D,2) (outer atoms c C w W i I l L f d b s m; plus 11 fixed signatures containing o) x every datum of Val(sig) encoded by the reference model; opaque-atom = 14 atom signatures x Val. " +
+			"opaque = every composite signature of Sig(D,2) (outer atoms c C w W i I l L f d b s m; plus 11 fixed signatures containing o) x every datum of Val(sig) encoded by the reference model (depth-3 signatures: distinguished and zero value only, 2 deliveries); opaque-atom = 14 atom signatures x Val. " +
 			"Every value is evaluated under 6 deliveries ({data+EOF, EOF separate, 8 sentinel bytes follow} x {unfragmented, 1 byte per read}), opaque composites under 3 (exact buffer with data+EOF; sentinel follows; 1 byte per read with a separate EOF); evaluations counts (value, delivery) pairs. " +
 			"A case class is (family, signature shape with struct names dropped | constructor letter and encoding length | list depth, length and element kinds, outcome); " +
 			"distinct_nontrivial counts the distinct classes executed"
